@@ -313,12 +313,46 @@ func closureWrites(mc *ssa.MakeClosure, a *ssa.Alloc) bool {
 					return true
 				}
 			case *ssa.UnOp, *ssa.DebugRef:
+			case *ssa.FieldAddr, *ssa.IndexAddr:
+				// `captured.Field` / `captured[i]` that is only loaded from is a read
+				if !derivedAddrOnlyRead(x.(ssa.Value), 0) {
+					return true
+				}
 			default:
 				return true
 			}
 		}
 	}
 	return false
+}
+
+// derivedAddrOnlyRead: an address derived from a variable (field/element address) whose only uses are
+// loads (or further derived addresses that are only loaded).
+func derivedAddrOnlyRead(v ssa.Value, depth int) bool {
+	refs := v.Referrers()
+	if refs == nil || depth > 4 {
+		return false
+	}
+	for _, r := range *refs {
+		switch x := r.(type) {
+		case *ssa.UnOp:
+			if x.Op != token.MUL {
+				return false
+			}
+		case *ssa.DebugRef:
+		case *ssa.FieldAddr:
+			if !derivedAddrOnlyRead(x, depth+1) {
+				return false
+			}
+		case *ssa.IndexAddr:
+			if x.X != v || !derivedAddrOnlyRead(x, depth+1) {
+				return false
+			}
+		default:
+			return false
+		}
+	}
+	return true
 }
 
 func derivedAddrWritten(v ssa.Value) bool {
